@@ -122,6 +122,16 @@ def slice_adt_fields(F, fn, op, adt_suffix, depth=0, _seen=None, max_nodes=600):
                             continue
                         _seen.add(k)
                         out |= slice_adt_fields(F, g, t["args"][local - 1], adt_suffix, depth + 1, _seen)
+        if local == 1 and fn.get("owner") and fn.get("def_kind") == "Closure" and depth < 3:
+            # the environment of a closure: continue with what the enclosing function captured into it
+            own = F.fns.get(fn["owner"])
+            k = (fn["path"], "env")
+            if own is not None and k not in _seen:
+                _seen.add(k)
+                for bi, si, s in mir.stmts(own):
+                    if s["rv"]["k"] == "agg" and s["rv"].get("closure") == fn["path"]:
+                        for o in s["rv"]["ops"]:
+                            out |= slice_adt_fields(F, own, o, adt_suffix, depth + 1, _seen)
         for d in du.defs.get(local, []) + du.partial.get(local, []):
             if d[0] == "call":
                 t = d[3]
@@ -134,7 +144,7 @@ def slice_adt_fields(F, fn, op, adt_suffix, depth=0, _seen=None, max_nodes=600):
                         st.append((apl["l"], ()))
                 r = t.get("resolved") or t.get("callee") or ""
                 h = F.fns.get(r)
-                if h is not None and h["crate"].startswith("tx3") and depth < 2 and (r, "ret") not in _seen:
+                if h is not None and h["crate"].startswith("tx3") and depth < 3 and (r, "ret") not in _seen:
                     _seen.add((r, "ret"))
                     for bi, si, s in mir.stmts(h):
                         if s["lhs"]["l"] == 0:
